@@ -318,10 +318,16 @@ class AsynchronousDeferredRunTest(_DeferredRunTest):
             d = defer.maybeDeferred(f, *args, **kwargs)
             try:
                 yield d
-            except Exception:
+            except GeneratorExit:
+                raise
+            except BaseException:
+                # Also SystemExit and KeyboardInterrupt: the remaining
+                # cleanups still have to run, and RunTest re-raises these
+                # once the test has been reported.
                 exc_info = sys.exc_info()
                 self.case._report_traceback(exc_info)
-                last_exception = exc_info[1]
+                if last_exception is None or isinstance(last_exception, Exception):
+                    last_exception = exc_info[1]
         return last_exception
 
     def _make_spinner(self):
